@@ -89,10 +89,11 @@ class Oracle:
 
 
 class Datagram:
-    __slots__ = ("id", "sender", "data", "src", "dst", "sent_at", "fate", "copies", "phase", "meta")
+    __slots__ = ("id", "sender", "data", "src", "dst", "sent_at", "fate", "copies", "phase", "meta", "rewritten")
 
     def __init__(self):
         self.meta = None
+        self.rewritten = False
 
 
 def innermost_frame(exc):
@@ -556,7 +557,7 @@ class TransportSim:
                     [0x1301], [0x1302], [0x1303], None]
             cs = perm[c.choose(len(perm))]
             ss = perm[c.choose(len(perm))]
-            if cs is not None and ss is not None and not set(cs) & set(ss):
+            if cs is not None and ss is not None and not set(cs) & set(ss) and not p.get("allow_disjoint_suites"):
                 ss = None
         else:
             cs = ss = None
